@@ -275,8 +275,8 @@ func (codecHTTPBody) Unmarshal(data []byte, v interface{}) error {
 func (codecHTTPBody) Name() string { return "body" }
 
 func (codecHTTPBody) ReadNext(b []byte, r io.Reader, limit int) ([]byte, int, error) {
-	var total int
-	for {
+	total := len(b) // bytes carried over count towards the chunk
+	for limit <= 0 || total < limit {
 		if len(b) == cap(b) {
 			// Add more capacity (let append pick how much).
 			b = append(b, 0)[:len(b)]
@@ -284,13 +284,14 @@ func (codecHTTPBody) ReadNext(b []byte, r io.Reader, limit int) ([]byte, int, er
 		n, err := r.Read(b[len(b):cap(b)])
 		b = b[:len(b)+n]
 		total += int(n)
-		if total > limit {
-			total = limit
-		}
-		if err != nil || total == limit {
+		if err != nil {
+			if limit > 0 && total > limit {
+				break // a full chunk now, the error on the next call
+			}
 			return b, total, err
 		}
 	}
+	return b, limit, nil
 }
 
 func (codecHTTPBody) WriteNext(w io.Writer, b []byte) (int, error) {
